@@ -136,9 +136,23 @@ def main() -> int:
         except subprocess.TimeoutExpired:
             code, summary = -1, "TIMEOUT"
         verdict = "caught" if code == 1 else ("HARNESS-ERROR" if code == 2 else "MISSED")
+        if code == 1 and os.environ.get("SELFTEST_REPLAY", "1") == "1":
+            import glob
+            files = sorted(glob.glob(f"{m}/out/replays/{prop}/*.json"))
+            if files:
+                try:
+                    rr = subprocess.run(["/verif/check", prop, "--replay", files[0]], env=env, capture_output=True,
+                                        text=True, timeout=600)
+                    verdict += " replay-ok" if rr.returncode == 1 else f" REPLAY-RC{rr.returncode}"
+                    if rr.returncode != 1:
+                        missed.append(name + ":replay")
+                except subprocess.TimeoutExpired:
+                    verdict += " REPLAY-TIMEOUT"
+            else:
+                verdict += " NO-REPLAY-FILE"
         if code != 1:
             missed.append(name)
-        print(f"{name:40s} {prop}  {verdict:8s} {summary}")
+        print(f"{name:40s} {prop}  {verdict:18s} {summary}")
         sys.stdout.flush()
         shutil.rmtree(m, ignore_errors=True)
     print("not caught:", missed)
